@@ -18,7 +18,7 @@ ID = "C12"
 TITLE = "Symbolic rewriting preserves the solution set"
 PROPS_FILE = "Props/Properties_C12.v"
 LEVEL = "proof"
-SIZES = {"quick": 420, "thorough": 6000}
+SIZES = {"quick": 420, "thorough": 4000}
 PARALLEL = True
 SHARD = 60
 COQ_TIMEOUT = 900
@@ -196,7 +196,8 @@ def _gen_div(rng):
     if form == "v/d":
         line = "%s/%s %s %s" % (a, d, c, k2)
     elif form == "(lin)/d":
-        line = "(%s + %s)/%s %s %s" % (a, k2, d, c, rng.choice(others + [k]))
+        # the other side must not repeat the numerator variable (two sign-relevant factors: outside the class)
+        line = "(%s + %s)/%s %s %s" % (a, k2, d, c, rng.choice([n for n in others if n != a] + [k]))
     elif form == "k/d":
         if float(k2) == 0:      # 'k/d = 0' has no solution for d: sympy returns nothing and the line is dropped (finding C's cousin)
             k2 = _lit(_num(rng, cls))
@@ -557,6 +558,28 @@ def _zero_of_new_divisor(newdivs, p):
     return False
 
 
+FLOAT_MAX = Fraction(1.7976931348623157e308)
+
+
+def _coeffs(e, acc=None):
+    acc = [] if acc is None else acc
+    if e[0] == "c":
+        acc.append(e[1])
+    elif e[0] == "v":
+        pass
+    elif e[0] in ("neg", "pow"):
+        _coeffs(e[1], acc)
+    else:
+        _coeffs(e[1], acc); _coeffs(e[2], acc)
+    return acc
+
+
+def _overflow_lines(case_rels):
+    """returned lines carrying a constant that no float can hold: mystic's own test-point evaluation of such a line
+    produces inf/nan, so its decision whether to flip the comparator is arbitrary there (finding E)"""
+    return [i for i, r in enumerate(case_rels) if any(abs(c) > FLOAT_MAX for c in _coeffs(r[0]) + _coeffs(r[2]))]
+
+
 def _new_divisor_vars(inp, cases):
     din = set()
     for r in inp:
@@ -681,6 +704,18 @@ def oracle(case, obs):
             left.append((p, a, b))
     det = dict(point=[str(x) for x in mism[0][0]], input_holds=mism[0][1], output_holds=mism[0][2], n_points=len(mism),
                output=obs.get("cases"))
+    if left and len(cases) == 1 and _overflow_lines(cases[0]):
+        # are the remaining differences explained by flipping back the comparator of overflowing lines?
+        flipc = {"<": ">", "<=": ">=", ">=": "<=", ">": "<", "=": "=", "!=": "!="}
+        idx = _overflow_lines(cases[0])
+        import itertools
+        for k_ in range(1, len(idx) + 1):
+            for sub in itertools.combinations(idx, k_):
+                alt = [[(r[0], flipc[r[1]], r[2]) if i in sub else r for i, r in enumerate(cases[0])]]
+                if all(U.holds_sys(minp, p) == U.holds_cases(alt, p) for p, a, b in left):
+                    p, a, b = left[0]
+                    det = dict(point=[str(x) for x in p], input_holds=a, output_holds=b, n_points=len(left), output=obs.get("cases"))
+                    return [_fail("same-points", "symbolic._simplify1", "flip-decision-float-overflow", det)]
     if left:
         p, a, b = left[0]
         det = dict(point=[str(x) for x in p], input_holds=a, output_holds=b, n_points=len(left), output=obs.get("cases"))
@@ -772,13 +807,6 @@ Ltac c12_cert0 := let env := fresh "env" in intro env; intros; c12_open; c12_ari
 Ltac c12_cert1 d1 := let env := fresh "env" in intro env; intros; c12_open; c12_split env d1 ltac:(c12_arith).
 Ltac c12_cert2 d1 d2 := let env := fresh "env" in intro env; intros; c12_open;
   c12_split env d1 ltac:(c12_split env d2 ltac:(c12_arith)).
-
-(* mystic's pre-processing of the user's lines as modelled (known findings A and C): inclusive merge, then lines in which
-   every variable cancels are dropped when their comparator is '=' or '!=' *)
-Definition c12_dropped (r : rel) : bool :=
-  match degenerate r with Some _ => negb (is_ineq (rcmp r)) | None => false end.
-Definition c12_pre (lines : sys) : sys :=
-  filter (fun r => negb (c12_dropped r)) (if no_opposing lines then lines else merge_incl lines).
 
 (* ---- canonical-form comparisons *)
 Definition sys_set_eqb (a b : sys) : bool := forallb (fun r => rmem r b) a && forallb (fun r => rmem r a) b.
@@ -939,13 +967,15 @@ def coq_terms(case, obs):
     cases = I["cases"] if st == "ok" else []
     if k == "solve" and st == "none":
         return []
+    if any(_overflow_lines(c) for c in cases):
+        return []     # float overflow inside mystic's test-point evaluation is not modelled (finding E)
     adjusted = False
     if k != "solve":
         minp, notes = _model_input(inp)
         adjusted = bool(notes) or len(minp) != len(inp)
     inp_term = _sys_term(inp)
     if adjusted:   # the statement is about the model's pre-processing, computed by Coq itself
-        inp_term = "ltac:(let s := eval vm_compute in (c12_pre %s) in exact s)" % inp_term
+        inp_term = "ltac:(let s := eval vm_compute in (simplify_pre %s) in exact s)" % inp_term
     if I["mode"] == "exact":
         hyps = sorted(_new_divisor_vars(inp, cases))
         cert = _certificate(inp_term, minp if adjusted else inp, cases, hyps)
@@ -965,7 +995,7 @@ def coq_terms(case, obs):
 def coq_debug(case, obs, k):
     I = interpret(case, obs)
     if "input" in I:
-        return "(c12_pre %s, %s)" % (_sys_term(I["input"]), U.coq_cases([[_prel(r) for r in s] for s in I.get("cases", [])]))
+        return "(simplify_pre %s, %s)" % (_sys_term(I["input"]), U.coq_cases([[_prel(r) for r in s] for s in I.get("cases", [])]))
     return "tt"
 
 
